@@ -23,6 +23,7 @@ pub enum Source { App }
 //@fn iroh/src/socket/remote_map/remote_state/path_state.rs prune_non_relay_paths
 //@end
 
+// @extra-items-here (helpers a change newly calls are spliced in above this line)
 #[derive(Clone, Copy, Debug, PartialEq, Eq)]
 enum Kind { Open, Unknown, Inactive(u32), Unusable, Relay }
 
@@ -32,7 +33,8 @@ fn main() {
     let args: Vec<String> = std::env::args().collect();
     let max_paths: u32 = args.get(1).and_then(|s| s.parse().ok()).unwrap_or(34);
     let max_relay: u32 = args.get(2).and_then(|s| s.parse().ok()).unwrap_or(1);
-    let only: Option<Vec<u32>> = args.get(3).map(|s| s.split(',').map(|x| x.parse().unwrap()).collect());
+    // optional third argument: one recorded input ("open=0 unknown=0 inactive=1 unusable=29 relay=0 close_order=0") to replay
+    let only: Option<Vec<u32>> = args.get(3).map(|s| s.split_whitespace().take(5).map(|kv| kv.split('=').nth(1).unwrap().parse().unwrap()).collect());
     let base = Instant::now();
     let mut evaluations: u64 = 0;
     let mut nontrivial: u64 = 0;
